@@ -153,7 +153,7 @@ add("F47", ["C11", "C01"], "C11.closure-lifetime|executor|generate_exec_closure_
 add("F55", ["C04"], "C04.assign-protocol|kind|RecordExpr", "`let r = {a = x = 1.0, b = 2.0}`: the record literal's lowering reads `a = x` and drops `= 1.0` without any diagnostic (x stays 0.0 on both back ends); findings/repro/F53_residual_record_field_assignment.mmm")
 
 # ---- error vectors dropped by the unifier (C03.error-drop) ----------------------------------------------------
-add("F56", ["C03"], "C03.error-drop|drop|compiler::typing::unification::unify_vec|errs", "element-wise tuple unification collects the element errors and answers Ok when the remaining relations are consistent: `fn f(a:float, b:(float)->float){ b(a) }  fn dsp(){ f(1.0, 2.0) }` passes the type checker; the VM panics `Invalid indirect callable`, WASM traps `indirect call type mismatch` (findings/repro/F56_tuple_unify_drops_errors.mmm; _b: a number passed for a tuple gives an invalid WASM module). Returning the errors makes 6 existing tests fail: the suite pins the number of diagnostics of many_errors.mmm at 10, and the `str + 2.0` in that file is itself an instance of the defect (an 11th, correct, diagnostic appears); fixtures with default-valued record parameters rely on the leniency too. So it is recorded, not repaired")
+add("F56", ["C03"], "C03.error-drop|drop|compiler::typing::unification::unify_vec|collect", "element-wise tuple unification collects the element errors and answers Ok when the remaining relations are consistent: `fn f(a:float, b:(float)->float){ b(a) }  fn dsp(){ f(1.0, 2.0) }` passes the type checker; the VM panics `Invalid indirect callable`, WASM traps `indirect call type mismatch` (findings/repro/F56_tuple_unify_drops_errors.mmm; _b: a number passed for a tuple gives an invalid WASM module). Returning the errors makes 6 existing tests fail: the suite pins the number of diagnostics of many_errors.mmm at 10, and the `str + 2.0` in that file is itself an instance of the defect (an 11th, correct, diagnostic appears); fixtures with default-valued record parameters rely on the leniency too. So it is recorded, not repaired")
 
 
 def main():
